@@ -876,7 +876,7 @@ def shape_of(ip, shape):
     if isinstance(c, range):
         if len(c) == 0:
             return 0, (c.start, c.stop), False
-        lo, hi = min(c), max(c)
+        lo, hi = (c[0], c[-1]) if c.step > 0 else (c[-1], c[0])
         if lo < 0:
             w = max(lo.bit_length(), hi.bit_length()) + 1
             return w, (c.start, c.stop), True
